@@ -18,4 +18,13 @@ PROPS = {
             "f64 in bits_capacity modelled as exact integer ceiling (exact below 2^53)"],
         assumptions=["ChangeHash has exactly 32 bytes (type invariant of the Rust code)"],
     ),
+    "C02": dict(
+        modules=["AmVerif.Props.C02", "AmVerif.Props.C01Spec"],
+        engines=[dict(engine="crdt", quick=120, thorough=6000)],
+        level="proof",
+        rule="one evaluation = one input line (edit, delivery, state read) executed on real replicas and on the model; non-trivial = the line returned something other than a validation error; state reads compare the whole visible document (all conflict sets, list/text order, counters, nested objects)",
+        trusted_base=TB_COMMON + [
+            "the op set fed to the Lean spec is what Change::decode() of the real change returns (expanded ops), not an independent decoder (M2 change-column decoding is checked separately)"],
+        assumptions=["op ids of applied changes are pairwise distinct (DistinctIds) — follows from (actor, seq) uniqueness and startOp discipline, proved in C38/C04"],
+    ),
 }
